@@ -287,6 +287,17 @@ create_1d_filter (int              width,
 
 	/* Normalize, with error diffusion */
 	p -= width;
+	if (total == 0)
+	{
+	    /* Every tap rounded to zero (the combined kernel is much
+	     * narrower than a pixel, or it is IMPULSE x IMPULSE sampled
+	     * away from the centre of the phase). Dividing by zero would
+	     * fill the table with garbage; use a single tap of 1.0 on the
+	     * pixel that contains the sample position instead.
+	     */
+	    p[CLIP (-x1, 0, width - 1)] = pixman_fixed_1;
+	    total = pixman_fixed_1;
+	}
         total = 65536.0 / total;
         new_total = 0;
 	e = 0.0;
@@ -312,7 +323,13 @@ create_1d_filter (int              width,
 static int
 filter_width (pixman_kernel_t reconstruct, pixman_kernel_t sample, double size)
 {
-    return ceil (filters[reconstruct].width + size * filters[sample].width);
+    int width = ceil (filters[reconstruct].width + size * filters[sample].width);
+
+    /* IMPULSE x IMPULSE has no extent, but every phase still needs one
+     * coefficient: the tables are indexed and normalized per phase, and
+     * a 0-wide filter would make create_1d_filter() write past them.
+     */
+    return MAX (width, 1);
 }
 
 #ifdef PIXMAN_GNUPLOT
